@@ -80,3 +80,66 @@ func GenTextList(r *rand.Rand, max int) []string {
 }
 
 func Pick[T any](r *rand.Rand, xs ...T) T { return xs[r.Intn(len(xs))] }
+
+// NegativeSerialDER returns a copy of an X.509 certificate whose serialNumber INTEGER has its sign bit set (a
+// negative serial number, legal DER, issued by some CAs); lengths are unchanged, the signature is not recomputed.
+func NegativeSerialDER(der []byte) ([]byte, bool) {
+	// Certificate SEQUENCE -> TBSCertificate SEQUENCE -> [0] version (optional) -> serialNumber INTEGER
+	hdr := func(b []byte) (tag byte, contentOff, contentLen int, ok bool) {
+		if len(b) < 2 {
+			return 0, 0, 0, false
+		}
+		tag = b[0]
+		l := int(b[1])
+		off := 2
+		if l >= 0x80 {
+			n := l & 0x7f
+			if n == 0 || n > 4 || len(b) < 2+n {
+				return 0, 0, 0, false
+			}
+			l = 0
+			for i := 0; i < n; i++ {
+				l = l<<8 | int(b[2+i])
+			}
+			off = 2 + n
+		}
+		if off+l > len(b) {
+			return 0, 0, 0, false
+		}
+		return tag, off, l, true
+	}
+	out := append([]byte(nil), der...)
+	t, o1, _, ok := hdr(out)
+	if !ok || t != 0x30 {
+		return nil, false
+	}
+	t, o2, _, ok := hdr(out[o1:])
+	if !ok || t != 0x30 {
+		return nil, false
+	}
+	p := o1 + o2
+	t, o3, l3, ok := hdr(out[p:])
+	if !ok {
+		return nil, false
+	}
+	if t == 0xa0 { // version
+		p += o3 + l3
+		t, o3, l3, ok = hdr(out[p:])
+		if !ok {
+			return nil, false
+		}
+	}
+	if t != 0x02 || l3 < 1 {
+		return nil, false
+	}
+	c := out[p+o3 : p+o3+l3]
+	if c[0] == 0 && l3 > 1 { // 00 xx with xx >= 0x80: make it 80 xx (still minimal)
+		c[0] = 0x80
+	} else {
+		c[0] |= 0x80
+		if c[0] == 0xff && l3 > 1 && c[1] >= 0x80 { // would not be minimal
+			c[0] = 0xfe
+		}
+	}
+	return out, true
+}
